@@ -214,6 +214,12 @@ class Report:
         if self.undecided:
             print('UNDECIDED: %d obligations (first: %s)' % (len(self.undecided), self.undecided[0]), flush=True)
             return 2
+        if self.downgraded:
+            # a function that is under contract on the unchanged tree could not be brought within the VC generator's reach on
+            # this tree (slice anchor moved, construct outside the encoded subset): no verdict for it
+            d = self.downgraded[0]
+            print('UNDECIDED: %d function(s) out of reach of the VC generator on this tree (first: %s: %s)' % (len(self.downgraded), d.get('function'), str(d.get('reason'))[:200]), flush=True)
+            return 2
         return 0
 
 
